@@ -40,7 +40,9 @@ class LineReplayer:
         self.kinds = Counter()
 
     def build(self, h):
-        u = Universe(self.ng, self.names, self.consts)
+        u = Universe.__new__(Universe)
+        u.strict_consts = True      # StrictTensor of IRGraph.tla
+        u.__init__(self.ng, self.names, self.consts)
         for cc, _out in h:
             u.apply(call_from_compact(cc))
         return u
